@@ -142,6 +142,16 @@ theorem intersection_checked_eq_plain {l1 l2 : Line} (h1 : J.line l1) (h2 : J.li
   exact Chk.Isect.intersection_ok n1 n2 (by omega) (by omega) (by omega)
 example : J.line ⟨⟨-1024, -1024⟩, ⟨1024, -1024⟩⟩ ∧ J.line ⟨⟨1024, -1024⟩, ⟨0, 1024⟩⟩ := by decide
 
+/-- `LinearEquation::distance` (the self-intersection test `check_side` of a join): points within
++-8191, normal vectors within +-16382, origin distance within +-2^30 (display-scale edges:
+points within +-2176, normals within +-2048, origin distances below 2^24). -/
+theorem linear_equation_distance_checked_eq_plain {le : EG.Isect.LinearEquation} {p : Pt}
+    (hn : (-16382 ≤ le.normal.x ∧ le.normal.x ≤ 16382) ∧ (-16382 ≤ le.normal.y ∧ le.normal.y ≤ 16382))
+    (hp : (-8191 ≤ p.x ∧ p.x ≤ 8191) ∧ (-8191 ≤ p.y ∧ p.y ≤ 8191))
+    (ho : -1073741824 ≤ le.originDistance ∧ le.originDistance ≤ 1073741824) :
+    Chk.Isect.distance le p = some (EG.Isect.distance le p) := Chk.Isect.distance_ok hn hp ho
+example : (EG.Isect.fromLine ⟨⟨-1024, -1024⟩, ⟨1024, 1024⟩⟩).originDistance ≤ 1073741824 := by decide
+
 /-- Display-scale lines are inside `J`. -/
 theorem ds_line_in_J {l : Line} (h : DS.line l) : J.line l := ds_line_J h
 example : DS.line ⟨⟨-1024, -1024⟩, ⟨1024, 1024⟩⟩ := by decide
